@@ -771,7 +771,7 @@ def first_diff(a, b):
 
 class C03(Prop):
     id = "C03"
-    props_file = ["Props/C03.v", "Props/C03_Examples.v", "Props/C03_Bridge.v"]
+    props_file = ["Props/C03.v", "Props/C03_Examples.v", "Props/C03_Bridge.v", "Props/C03_BridgeRun.v"]
     coq_imports = kc.COQ_IMPORTS
     n_quick = 600
     n_thorough = 5000
@@ -785,7 +785,7 @@ class C03(Prop):
                        "uninterrupted run processes >= 6 events, >= 3 of them at one instant, and some split plan really stops "
                        "in the middle; distinct by hash of the bundle")
     trusted_base = ["vlib/translate.py (Python ast, fail closed; tables in props/kernel_tie.py) regenerates before every build the translation of "
-                    "StopSimulation.callback and Environment.step of the tree under test (coq/Gen/Extracted_kernel.v); the C03_gen_* theorems (Props/C03_Bridge.v) bridge them to stop_cb / step of Kernel/Model.v",
+                    "StopSimulation.callback and Environment.step of the tree under test (coq/Gen/Extracted_kernel.v); the C03_gen_* theorems (Props/C03_Bridge.v) bridge them to stop_cb / step of Kernel/Model.v; Environment.run (its prelude and ONE iteration of its step loop with the handlers: coq/Gen/Extracted_run.v) is bridged to run_prelude / run_loop / run_empty by C03_gen_run (Props/C03_BridgeRun.v)",
                     "kernel harness props/kernel_common.py (real generators on the real Environment; env.schedule/env.step wrapped as "
                     "instance attributes; events named by creation index) plus this plugin's item log",
                     "times are exact: dyadic delays and horizons, Python numbers converted with fractions.Fraction; float rounding is "
@@ -829,6 +829,7 @@ class C03(Prop):
         from vlib import framework as fw
         from props import kernel_tie
         kernel_tie.write_extracted_kernel(fw.REPO, fw.COQ)
+        kernel_tie.write_extracted_run(fw.REPO, fw.COQ)
 
     def gen_case(self, rng, tier):
         r = rng.random()
